@@ -23,6 +23,7 @@ type c24In struct {
 	Op  string // set, get, getpoint
 	Key int
 	Val int
+	Sub int // proposals: which of the two facts of the point key (set, get)
 }
 
 type c24Out struct{ Val int }
@@ -65,6 +66,41 @@ var c24Model = porcupine.Model{
 		}
 	},
 	Equal: func(a, b interface{}) bool { return a.(int) == b.(int) },
+}
+
+// proposals: per (point, proposer, previous block) two facts; a write-once register per fact, and the lookup by point
+// answers with the fact that was stored (for the first time) last
+type c24PState struct {
+	Reg  [2]int
+	Last int // 0 none, 1 or 2: fact index + 1
+}
+
+var c24ModelP = porcupine.Model{
+	Partition: c24Model.Partition,
+	Init:      func() interface{} { return c24PState{} },
+	Step: func(state, input, output interface{}) (bool, interface{}) {
+		st, in, out := state.(c24PState), input.(c24In), output.(c24Out)
+
+		switch in.Op {
+		case "set":
+			if st.Reg[in.Sub] == 0 {
+				st.Reg[in.Sub] = in.Val
+				st.Last = in.Sub + 1
+			}
+
+			return true, st
+		case "getpoint":
+			want := 0
+			if st.Last > 0 {
+				want = st.Reg[st.Last-1]
+			}
+
+			return out.Val == want, st
+		default:
+			return out.Val == st.Reg[in.Sub], st
+		}
+	},
+	Equal: func(a, b interface{}) bool { return a.(c24PState) == b.(c24PState) },
 }
 
 type c24BallotKey struct {
@@ -110,6 +146,7 @@ func c24Run(r *simkit.Run) {
 
 	type attempt struct {
 		key   int
+		sub   int
 		val   int
 		bl    base.Ballot
 		pr    base.ProposalSignFact
@@ -127,7 +164,7 @@ func c24Run(r *simkit.Run) {
 		point    base.Point
 		proposer base.Address
 		prev     util.Hash
-		fact     isaac.ProposalFact
+		facts    [2]isaac.ProposalFact
 	}
 
 	var pkeys []prKey
@@ -156,8 +193,12 @@ func c24Run(r *simkit.Run) {
 		} else {
 			proposer := common.Local(k).Address()
 			prev := valuehash.RandomSHA256()
-			fact := isaac.NewProposalFact(point, proposer, prev, [][2]util.Hash{{valuehash.RandomSHA256(), valuehash.RandomSHA256()}})
-			pkeys = append(pkeys, prKey{point: point, proposer: proposer, prev: prev, fact: fact})
+			pk := prKey{point: point, proposer: proposer, prev: prev}
+			for f := range pk.facts {
+				pk.facts[f] = isaac.NewProposalFact(point, proposer, prev, [][2]util.Hash{{valuehash.RandomSHA256(), valuehash.RandomSHA256()}})
+			}
+
+			pkeys = append(pkeys, pk)
 		}
 	}
 
@@ -203,7 +244,12 @@ func c24Run(r *simkit.Run) {
 			a.bytes = marshal(a.bl)
 			byFact[a.bl.SignFact().Fact().Hash().String()] = a
 		} else {
-			fs := isaac.NewProposalSignFact(pkeys[key].fact)
+			a.sub = 0
+			if r.Chance(1, 3) { // a second, different fact for the same (point, proposer, previous block)
+				a.sub = 1
+			}
+
+			fs := isaac.NewProposalSignFact(pkeys[key].facts[a.sub])
 			if err := fs.Sign(signer.Privatekey(), common.NetworkID); err != nil {
 				panic(err)
 			}
@@ -231,9 +277,14 @@ func c24Run(r *simkit.Run) {
 			switch r.Choose(5) {
 			case 0, 1, 2:
 				a := newAttempt(key)
-				plan[c] = append(plan[c], planned{in: c24In{Op: "set", Key: key, Val: a.val}, a: a})
+				plan[c] = append(plan[c], planned{in: c24In{Op: "set", Key: key, Val: a.val, Sub: a.sub}, a: a})
 			case 3:
-				plan[c] = append(plan[c], planned{in: c24In{Op: "get", Key: key}})
+				sub := 0
+				if mode == 1 && r.Chance(1, 3) {
+					sub = 1
+				}
+
+				plan[c] = append(plan[c], planned{in: c24In{Op: "get", Key: key, Sub: sub}})
 			default:
 				op := "get"
 				if mode == 1 {
@@ -297,7 +348,7 @@ func c24Run(r *simkit.Run) {
 		if in.Op == "getpoint" {
 			pr, found, err = pool.ProposalByPoint(pk.point, pk.proposer, pk.prev)
 		} else {
-			pr, found, err = pool.Proposal(pk.fact.Hash())
+			pr, found, err = pool.Proposal(pk.facts[in.Sub].Hash())
 		}
 
 		if err != nil {
@@ -363,8 +414,16 @@ func c24Run(r *simkit.Run) {
 			}
 
 			if mode == 1 {
-				if p := lookup(c24In{Op: "getpoint", Key: k}).Val; p != a {
-					r.Fail("point-lookup-differs", "quiescent", "key %d: Proposal(hash)=%d but ProposalByPoint=%d", k, a, p)
+				a1 := lookup(c24In{Op: "get", Key: k, Sub: 1}).Val
+				p := lookup(c24In{Op: "getpoint", Key: k}).Val
+
+				switch {
+				case a == 0 && a1 == 0 && p != 0:
+					r.Fail("point-lookup-differs", "quiescent", "key %d: nothing stored for either fact but ProposalByPoint=%d", k, p)
+				case (a != 0 || a1 != 0) && p != a && p != a1:
+					r.Fail("point-lookup-differs", "quiescent", "key %d: Proposal(hash) gives %d and %d for the two facts but ProposalByPoint=%d", k, a, a1, p)
+				case (a != 0 || a1 != 0) && p == 0:
+					r.Fail("point-lookup-differs", "quiescent", "key %d: proposals %d/%d are stored but ProposalByPoint finds nothing", k, a, a1)
 				}
 			}
 
@@ -384,6 +443,17 @@ func c24Run(r *simkit.Run) {
 			if a := lookup(c24In{Op: "get", Key: k}).Val; a != final[k] {
 				r.Fail("restart-differs", "reopen", "key %d read %d before and %d after re-creating the pool on the same storage", k, final[k], a)
 			}
+
+			if mode == 1 {
+				pool = old
+				p0 := lookup(c24In{Op: "getpoint", Key: k}).Val
+				b0 := lookup(c24In{Op: "get", Key: k, Sub: 1}).Val
+				pool = pool2
+
+				if p1, b1 := lookup(c24In{Op: "getpoint", Key: k}).Val, lookup(c24In{Op: "get", Key: k, Sub: 1}).Val; p1 != p0 || b1 != b0 {
+					r.Fail("restart-differs", "reopen", "key %d: by point %d and second fact %d before, %d and %d after re-creating the pool on the same storage", k, p0, b0, p1, b1)
+				}
+			}
 		}
 
 		pool = old
@@ -395,7 +465,12 @@ func c24Run(r *simkit.Run) {
 	}
 
 	r.AfterBubble(func() {
-		switch porcupine.CheckOperationsTimeout(c24Model, ops, 30*time.Second) {
+		model := c24Model
+		if mode == 1 {
+			model = c24ModelP
+		}
+
+		switch porcupine.CheckOperationsTimeout(model, ops, 30*time.Second) {
 		case porcupine.Ok:
 			r.Probe("porcupine_ok")
 		case porcupine.Unknown:
